@@ -75,7 +75,8 @@ Lemma patch_item_bound cr it b l rs b' code :
   patch_item cr it b l = (rs, b', code) -> matching rs + b' <= matching l + b.
 Proof.
   unfold patch_item. destruct (lookup (ik it) l) as [r|] eqn:E.
-  - destruct (patch_fields_cap (rm r) (if rm r then ipt it else ipf it) b) as [ok b1] eqn:P.
+  - destruct (iskip it); [intro H; inversion H; subst; lia|].
+    destruct (patch_fields_cap (rm r) (if rm r then ipt it else ipf it) b) as [ok b1] eqn:P.
     destruct ok; intro H; inversion H; subst; clear H.
     + pose proof (matching_replace (ik it) r
         {| rk := rk r; rm := (if rm r then ipt it else ipf it); rx := rx r; rd := rd r |} l E) as M.
@@ -84,7 +85,8 @@ Proof.
     + unfold patch_fields_cap in P.
       destruct (rm r), (ipt it), (ipf it), b as [|b]; simpl in *; inversion P; subst; lia.
   - destruct cr.
-    + destruct (patch_fields_cap false (ipc it) b) as [ok b1] eqn:P.
+    + destruct (iskip it); [intro H; inversion H; subst; lia|].
+      destruct (patch_fields_cap false (ipc it) b) as [ok b1] eqn:P.
       destruct ok; intro H; inversion H; subst; clear H.
       * rewrite matching_app. simpl. unfold patch_fields_cap in P. unfold bn.
         destruct (ipc it), b as [|b]; simpl in *; inversion P; subst; lia.
@@ -302,7 +304,7 @@ Qed.
 
 (* ---- non-vacuity -------------------------------------------------------------------------- *)
 Definition r_ (k : N) (m x d : bool) : rec := {| rk := k; rm := m; rx := x; rd := d |}.
-Definition it_ (k : N) (pf pt : bool) : item := {| ik := k; ipf := pf; ipt := pt; ipc := pf |}.
+Definition it_ (k : N) (pf pt : bool) : item := {| ik := k; ipf := pf; ipt := pt; ipc := pf; iskip := false |}.
 
 Definition ex_recs : list rec := [r_ 1 false true true; r_ 2 false true true; r_ 3 true false false; r_ 4 false false false].
 Definition ex_progs : list prog :=
